@@ -395,6 +395,17 @@ func init() {
 			{T("INDI", "", "I1", T("NAME", "@I1@", ""), T("123", "0", "p q"), T("BIRT", "", "", T("DATE", "12 NOTE x", "")))},
 			{T("NOTE", "", "", T("INDI", "", "I5", T("SEX", "M", "", T("NOTE", "child of sex", ""))))},
 		}
+		// the statement says "any nesting depth": chains beyond the two-digit levels as well
+		for _, d := range []int{100, 105, 1001} {
+			deep := T("NOTE", "d0", "")
+			cur := deep
+			for i := 1; i <= d; i++ {
+				k := T("CONT", "d"+strconv.Itoa(i), "")
+				cur.Kids = []*TNode{k}
+				cur = k
+			}
+			corpus = append(corpus, []*TNode{deep, T("NOTE", "after", "")})
+		}
 		// very long values: the property puts no limit on string length
 		for _, n := range []int{4095, 4096, 65535, 65536, 70000, c.N(200000, 2000000)} {
 			corpus = append(corpus, []*TNode{T("HEAD", "", ""), T("NOTE", strings.Repeat("x", n-1)+"y", "N1", T("CONT", strings.Repeat("z ", n/2)+"w", ""))})
